@@ -893,7 +893,7 @@ class TorConfig:
                         if v == [DEFAULT_VALUE]:
                             v = defaults.get(real_name, [])
                             if not isinstance(v, list):
-                                v = [v]
+                                v = parser.parse(v)
                         v = _ListWrapper(
                             v, functools.partial(self.mark_unsaved, real_name))
                     elif v != DEFAULT_VALUE:
@@ -1133,7 +1133,7 @@ class TorConfig:
                 if parsed == [DEFAULT_VALUE]:
                     parsed = defaults.get(rn, [])
                     if not isinstance(parsed, list):
-                        parsed = [parsed]
+                        parsed = self.parsers[rn].parse(parsed)
                 self.config[rn] = _ListWrapper(
                     parsed, functools.partial(self.mark_unsaved, rn))
 
